@@ -27,7 +27,7 @@ RULE = (
     ">=2 full steps. Distinct = SHA-1 of the case."
 )
 BUDGET = {"quick": {"examples": 200, "shards": 4}, "thorough": {"fuzz_runs": 3000, "examples": 2500, "shards": 16}}
-EXPECTED_LABELS = ("replace:dest", "replace:origin", "engine:SX", "engine:MX", "compile:not-ready:raised", "compile:ready:returned", "compile:after-add", "compile:after-reinit",
+EXPECTED_LABELS = ("manual", "elstep:failed", "replace:dest", "replace:origin", "engine:SX", "engine:MX", "compile:not-ready:raised", "compile:ready:returned", "compile:after-add", "compile:after-reinit",
                    "compile:after-2-steps", "compile:before-any-step", "same-symbols-restep", "late:ramp", "late:link", "late:branch", "late:source",
                    "value-checked")
 ASSUMPTIONS = ["re-initialisation always uses fresh engine variables (re-initialising with the same symbols would be a no-op)",
@@ -39,7 +39,7 @@ GROW_OK = ("branch", "source", "link", "ramp", "seed")
 @st.composite
 def cases(draw):
     log = []
-    sp = draw(gen_nets.specs(max_ops=7, with_plan=False, growth_log=log))
+    sp = draw(gen_nets.specs(max_ops=7, with_plan=False, growth_log=log, names=draw(st.sampled_from(["mixed", "mixed", "mixed", "clash"]))))
     # late groups: maximal suffix of growth operations that only add elements
     k = len(log)
     while k > 1 and log[k - 1]["op"] in GROW_OK:
@@ -62,7 +62,7 @@ def cases(draw):
         elif c == 4:
             ops.append(["elstep", draw(st.sampled_from(all_ids))])
         elif c == 5:
-            ops.append(["add_late"])
+            ops.append(draw(st.sampled_from([["add_late"], ["manual", draw(st.integers(0, 30)), draw(st.booleans())]])))
         elif c == 6:
             ops.append(draw(st.sampled_from([["add_late"], ["replace", "dest", draw(st.integers(0, 5))], ["replace", "origin", draw(st.integers(0, 5))]])))
         else:
@@ -174,13 +174,61 @@ def check_case(case, ctx):
             since.add("reinit" if n_steps else "init")
         elif op[0] == "elstep":
             i = op[1]
-            if i not in present or i.startswith("D") or not all(init[j] for j in present if declared(els[j])) or not els[i]._states:
+            if i not in present or i.startswith("D") or not els[i]._states:
+                continue
+            if not all(init[j] for j in present if declared(els[j])):
+                # stepping one element while it or a neighbour is uninitialised fails; a failed step is no step
+                try:
+                    els[i].step(net=net, engine=eng, **S.opts_kwargs(cur_opts), **cur_pars)
+                except Exception:
+                    ctx.label("elstep:failed")
+                    since.add("failed-elstep")
+                    continue
+                # it did not need the uninitialised neighbour: a genuine step of this element
+                if not init[i]:
+                    continue
+                fresh[i] = True
+                since.add("elstep")
                 continue
             r = guarded(ctx, "element.step", lambda: els[i].step(net=net, engine=eng, **S.opts_kwargs(cur_opts), **cur_pars))
             if crashed(r):
                 return
             fresh[i] = True
             since.add("elstep")
+        elif op[0] == "manual":
+            # the per-element API only: (optionally a step of one element that fails because nothing is initialised
+            # yet,) then init_vars of every element, then a step of every stateful element except that one
+            stateful = [i for i in sorted(present) if els[i]._states]
+            if not stateful:
+                continue
+            valid = guarded(ctx, "is_valid", net.is_valid)
+            if crashed(valid) or not valid[0]:
+                continue
+            skip = stateful[op[1] % len(stateful)]
+            if op[2] and not init[skip]:
+                try:
+                    els[skip].step(net=net, engine=eng, **S.opts_kwargs(cur_opts), **cur_pars)
+                    failed = False
+                except Exception:
+                    failed = True
+                if failed:
+                    ctx.label("elstep:failed")
+            for i in sorted(present):
+                r = guarded(ctx, "init_vars", lambda: els[i].init_vars(engine=eng))
+                if crashed(r):
+                    return
+                init[i] = True
+                if els[i]._states:
+                    fresh[i] = False
+            for i in stateful:
+                if i == skip:
+                    continue
+                r = guarded(ctx, "element.step", lambda: els[i].step(net=net, engine=eng, **S.opts_kwargs(cur_opts), **cur_pars))
+                if crashed(r):
+                    return
+                fresh[i] = True
+            ctx.label("manual")
+            since.add("reinit" if n_steps else "init")
         elif op[0] == "replace":
             # later attachments replace earlier ones: a fresh destination / origin object of the same kind on the same node
             grp = "dests" if op[1] == "dest" else "origins"
@@ -241,7 +289,8 @@ def check_case(case, ctx):
                 F, exc = None, e
             except Exception as e:
                 if ready:
-                    ctx.fail(f"ready:wrong-exception:{type(e).__name__}", f"{what}: to_function raised {type(e).__name__}: {e}")
+                    # the property only speaks about the not-ready case and about returned functions
+                    ctx.label("compile:ready:raised-other(open)")
                 else:
                     ctx.fail(f"not-ready:{why}:wrong-exception:{type(e).__name__}", f"{what}: network not ready ({why}) but to_function raised {type(e).__name__} instead of RuntimeError: {e}")
                 continue
